@@ -26,6 +26,8 @@
 #include <fstream>
 #include <functional>
 #include <dune/common/exceptions.hh>
+#include <dune/common/fvector.hh>
+#include <dune/common/dynvector.hh>
 #include <dune/common/parallel/mpihelper.hh>
 #include <dune/common/parallel/communication.hh>
 #include <dune/common/parallel/mpicommunication.hh>
@@ -60,7 +62,7 @@ static std::string run_guard(Mk&& mk, const std::string& script, bool count)
     auto g = mk();
     for (pc = 0; pc < script.size(); ++pc)
       switch (script[pc]) {
-        case 's': g.finalize(true); break;
+        case 's': if (pc % 2 == 0) g.finalize(); else g.finalize(true); break;   // default argument and explicit true
         case 'f': g.finalize(false); break;
         case 'r': g.reactivate(); break;
         case 't': throw UserExc();
@@ -70,7 +72,9 @@ static std::string run_guard(Mk&& mk, const std::string& script, bool count)
   } catch (Dune::MPIGuardError& e) {
     std::string w = e.what();
     size_t p = w.find("due to ");
-    ex = "G" + std::to_string(pc) + "e" + (p == std::string::npos ? std::string("?") : std::to_string(atoi(w.c_str() + p + 7)));
+    size_t q = w.find("Terminating process ");
+    ex = "G" + std::to_string(pc) + "e" + (p == std::string::npos ? std::string("?") : std::to_string(atoi(w.c_str() + p + 7)))
+       + "r" + (q == std::string::npos ? std::string("?") : std::to_string(atoi(w.c_str() + q + 20)));
   } catch (UserExc&) {
     ex = "U" + std::to_string(pc);
   } catch (Dune::Exception& e) {
@@ -81,12 +85,20 @@ static std::string run_guard(Mk&& mk, const std::string& script, bool count)
 
 // ------------------------------------------------------------------------------------------------ futures
 static std::string show(int x) { return "[" + std::to_string(x) + "]"; }
-template<class T> static std::string show(const std::vector<T>& v)
+template<class C> static std::string show(const C& v)
 {
+  if (v.size() > 16) { long long sum = 0; for (size_t i = 0; i < (size_t)v.size(); ++i) sum += (long long)v[i];
+                       return "[n=" + std::to_string(v.size()) + ";sum=" + std::to_string(sum) + "]"; }
   std::string s = "[";
-  for (size_t i = 0; i < v.size(); ++i) { if (i) s += ","; s += std::to_string((long long)v[i]); }
+  for (size_t i = 0; i < (size_t)v.size(); ++i) { if (i) s += ","; s += std::to_string((long long)v[i]); }
   return s + "]";
 }
+
+// F d;  compiles?  MPIFuture<R,S> is default-constructible only for S = void and non-reference R: Buffer<S> (by value) has no
+// default constructor, and Buffer<T&>(bool) does not compile when instantiated (`value = T()` on optional<reference_wrapper<T>>)
+template<class F> struct can_default : std::true_type {};
+template<class R, class S> struct can_default<Dune::MPIFuture<R, S>> : std::bool_constant<std::is_void_v<S> && !std::is_reference_v<R>> {};
+template<class T> struct can_default<Dune::PseudoFuture<T>> : std::bool_constant<!std::is_reference_v<T>> {};
 
 template<class F, bool MOVABLE>
 static void run_ops(F& f, const std::string& order, size_t from, size_t to, std::string& out)
@@ -108,6 +120,16 @@ static void run_ops(F& f, const std::string& order, size_t from, size_t to, std:
           if constexpr (MOVABLE && std::is_move_assignable_v<F>) { F tmp(std::move(f)); bool ov = f.valid(); f = std::move(tmp); out += ov ? "m1" : "m0"; }
           else out += "m?";
           break;
+        case 'a':   // move ASSIGNMENT into a default-constructed future and back
+          if constexpr (MOVABLE && can_default<F>::value && std::is_move_assignable_v<F>) { F d; d = std::move(f); bool ov = f.valid(); f = std::move(d); out += ov ? "a1" : "a0"; }
+          else out += "a?";
+          break;
+        case 'd':   // get_send_data()
+          if constexpr (requires { f.get_send_data(); }) {
+            if constexpr (std::is_void_v<decltype(f.get_send_data())>) { f.get_send_data(); out += "d[]"; }
+            else { auto&& x = f.get_send_data(); out += "d" + show(x); }
+          } else out += "d?";
+          break;
         default: out += "??";
       }
     } catch (Dune::InvalidFutureException&) {
@@ -121,7 +143,7 @@ static void run_ops(F& f, const std::string& order, size_t from, size_t to, std:
 struct FCase { int P; std::string fam, op, pay, wrap; int salt, late; std::string dep, order; };
 static MPI_Comm g_hcomm, g_wdup;
 
-static size_t nb_prefix(const std::string& o) { size_t k = 0; while (k < o.size() && o[k] != 'w' && o[k] != 'g') ++k; return k; }
+static size_t nb_prefix(const std::string& o) { size_t k = 0; while (k < o.size() && o[k] != 'w' && o[k] != 'g' && o[k] != 'd') ++k; return k; }
 
 // start() returns the future under test (started by this rank); cleanup() completes partner requests
 template<class Start>
@@ -129,6 +151,7 @@ static std::string flow(const FCase& c, Start&& start, std::function<void()> cle
 {
   using F0 = decltype(start());
   std::string out;
+  try {
   bool lt = c.fam == "M" && c.late >= 0;
   if (lt && g_rank == c.late) MPI_Barrier(g_hcomm);
   size_t k1 = (lt && g_rank != c.late) ? nb_prefix(c.order) : 0;
@@ -142,11 +165,12 @@ static std::string flow(const FCase& c, Start&& start, std::function<void()> cle
   if (c.wrap == "e") {
     using R = decltype(std::declval<F0&>().get());
     Dune::Future<R> f(start());
-    body(f, std::false_type());
+    body(f, std::true_type());
   } else {
     F0 f = start();
     body(f, std::true_type());
   }
+  } catch (Dune::ParallelError&) { out = "START-EXC(ParallelError)"; }
   if (cleanup) cleanup();
   return out;
 }
@@ -155,6 +179,23 @@ static int val(int w, int salt, int i) { return 1000 * (w + 1) + 10 * salt + i; 
 static std::vector<double> dvec(int w, int salt, int n) { std::vector<double> v(n); for (int i = 0; i < n; ++i) v[i] = val(w, salt, i); return v; }
 static std::vector<int> ivec(int w, int salt, int n) { std::vector<int> v(n); for (int i = 0; i < n; ++i) v[i] = val(w, salt, i); return v; }
 
+template<class V> static V mkvec(int w, int salt, int n) { V v(n); for (int i = 0; i < n; ++i) v[i] = val(w, salt, i); return v; }
+template<class V> static V mkfill(int n, double x) { V v(n); for (int i = 0; i < n; ++i) v[i] = x; return v; }
+static Dune::FieldVector<double, 3> fvec(int w, int salt) { Dune::FieldVector<double, 3> v; for (int i = 0; i < 3; ++i) v[i] = val(w, salt, i); return v; }
+
+// single-buffer operations with an owned container payload X (sent/received/broadcast/reduced in place)
+template<class X, class Comm>
+static std::string single_buffer_value(const FCase& c, Comm& cc, const std::string& op, X mine, X blank, int root, int dest, int src, int tag,
+                                       MPI_Request& raw, double* rawbuf, int n, std::function<void()> fin)
+{
+  const int me = g_rank;
+  if (op == "isend") return flow(c, [&]() { MPI_Irecv(rawbuf, n, MPI_DOUBLE, src, tag, g_wdup, &raw); return cc.isend(X(mine), dest, tag); }, fin);
+  if (op == "irecv") return flow(c, [&]() { MPI_Isend((void*)&mine[0], n, MPI_DOUBLE, dest, tag, g_wdup, &raw); return cc.irecv(X(blank), src, tag); }, fin);
+  if (op == "ibcast") return flow(c, [&]() { return cc.ibroadcast(X(me == root ? mine : blank), root); });
+  if (op == "iallreduce1") return flow(c, [&]() { return cc.template iallreduce<std::plus<double>>(X(mine)); });
+  return "UNSUPPORTED";
+}
+
 static std::string future_mpi(const FCase& c, long caseno)
 {
   Dune::Communication<MPI_Comm> cc(g_wdup);
@@ -162,10 +203,10 @@ static std::string future_mpi(const FCase& c, long caseno)
   const int dest = (me + 1) % P, src = (me + P - 1) % P;
   const std::string& op = c.op; const char pay = c.pay[0];
   // lvalue storage for the reference payloads (outlives the future)
-  int xi = val(me, salt, 0), ri = -1;
-  std::vector<double> xv = dvec(me, salt, 3), rv(3, -1.0);
+  int xi = val(me, salt, 0), ri = -1, zi = 0;
+  std::vector<double> xv = dvec(me, salt, 3), rv(3, -1.0), zv(3, 0.0);
   MPI_Request raw = MPI_REQUEST_NULL;
-  int rawi = -1; std::vector<double> rawv(3, -1.0);
+  int rawi = -1; std::vector<double> rawv(3000, -1.0);
   auto fin = [&]() { if (raw != MPI_REQUEST_NULL) MPI_Wait(&raw, MPI_STATUS_IGNORE); };
   if (op == "ibarrier") return flow(c, [&]() { return cc.ibarrier(); });
   if (op == "default") {
@@ -173,9 +214,25 @@ static std::string future_mpi(const FCase& c, long caseno)
     if (pay == 'v') return flow(c, [&]() { return Dune::MPIFuture<std::vector<double>>(); });
     return flow(c, [&]() { return Dune::MPIFuture<void>(); });
   }
+  if (op == "mkvalid") {   // MPIFuture(bool valid = true): valid, value-initialised buffer, null request
+    if (pay == 'i') return flow(c, [&]() { return Dune::MPIFuture<int>(true); });
+    if (pay == 'v') return flow(c, [&]() { return Dune::MPIFuture<std::vector<double>>(true); });
+    return flow(c, [&]() { return Dune::MPIFuture<void>(true); });
+  }
   if (op == "efuture") {   // default-constructed type-erased Dune::Future<T>: invalid, must report misuse
     if (pay == 'i') return flow(c, [&]() { return Dune::Future<int>(); });
     return flow(c, [&]() { return Dune::Future<void>(); });
+  }
+  if (pay == 'q') return single_buffer_value<Dune::DynamicVector<double>>(c, cc, op, mkvec<Dune::DynamicVector<double>>(me, salt, 3),
+                          mkfill<Dune::DynamicVector<double>>(3, -1.0), root, dest, src, tag, raw, rawv.data(), 3, fin);
+  if (pay == 'L') return single_buffer_value<std::vector<double>>(c, cc, op, dvec(me, salt, 3000), std::vector<double>(3000, -1.0),
+                          root, dest, src, tag, raw, rawv.data(), 3000, fin);
+  if (pay == 'F') {
+    Dune::FieldVector<double, 3> mine = fvec(me, salt), blank(-1.0);
+    if (op == "isend") return flow(c, [&]() { MPI_Irecv(rawv.data(), 3, MPI_DOUBLE, src, tag, g_wdup, &raw); return cc.isend(Dune::FieldVector<double, 3>(mine), dest, tag); }, fin);
+    if (op == "irecv") return flow(c, [&]() { MPI_Isend(&mine[0], 3, MPI_DOUBLE, dest, tag, g_wdup, &raw); return cc.irecv(Dune::FieldVector<double, 3>(blank), src, tag); }, fin);
+    if (op == "ibcast") return flow(c, [&]() { return cc.ibroadcast(Dune::FieldVector<double, 3>(me == root ? mine : blank), root); });
+    return "UNSUPPORTED";
   }
   if (op == "isend") {
     auto post = [&]() { if (pay == 'i' || pay == 'j') MPI_Irecv(&rawi, 1, MPI_INT, src, tag, g_wdup, &raw);
@@ -195,6 +252,7 @@ static std::string future_mpi(const FCase& c, long caseno)
       case 'j': return flow(c, [&]() { post(); return cc.irecv(ri, src, tag); }, fin);
       case 'v': return flow(c, [&]() { post(); return cc.irecv(std::vector<double>(3, -1.0), src, tag); }, fin);
       case 'w': return flow(c, [&]() { post(); return cc.irecv(rv, src, tag); }, fin);
+      case 'z': return flow(c, [&]() { return cc.irecv(std::vector<double>(), src, tag); });   // empty buffer: documented ParallelError
     }
   }
   if (op == "ibcast") {
@@ -235,11 +293,19 @@ static std::string future_mpi(const FCase& c, long caseno)
       case 'w': return flow(c, [&]() { return cc.iallgather(xv, ov); });
     }
   }
-  if (op == "iallreduce") {
+  if (op == "iallreduce") {     // two-argument form (send buffer + receive buffer)
     switch (pay) {
       case 'i': return flow(c, [&]() { return cc.template iallreduce<std::plus<int>>(int(xi), int(0)); });
-      case 'j': return flow(c, [&]() { return cc.template iallreduce<std::plus<int>>(xi); });
+      case 'j': return flow(c, [&]() { return cc.template iallreduce<std::plus<int>>(xi, zi); });
       case 'v': return flow(c, [&]() { return cc.template iallreduce<std::plus<double>>(std::vector<double>(xv), std::vector<double>(3, 0.0)); });
+      case 'w': return flow(c, [&]() { return cc.template iallreduce<std::plus<double>>(xv, zv); });
+    }
+  }
+  if (op == "iallreduce1") {    // in-place form
+    switch (pay) {
+      case 'i': return flow(c, [&]() { return cc.template iallreduce<std::plus<int>>(int(xi)); });
+      case 'j': return flow(c, [&]() { return cc.template iallreduce<std::plus<int>>(xi); });
+      case 'v': return flow(c, [&]() { return cc.template iallreduce<std::plus<double>>(std::vector<double>(xv)); });
       case 'w': return flow(c, [&]() { return cc.template iallreduce<std::plus<double>>(xv); });
     }
   }
@@ -251,19 +317,23 @@ static std::string future_seq(const FCase& c)
   Dune::Communication<Dune::No_Comm> cc;
   const int me = g_rank, salt = c.salt;
   const std::string& op = c.op; const char pay = c.pay[0];
-  int xi = val(me, salt, 0), ri = -1;
-  std::vector<double> xv = dvec(me, salt, 3);
+  int xi = val(me, salt, 0), ri = -1, zi = 0;
+  std::vector<double> xv = dvec(me, salt, 3), zv(3, 0.0);
   if (op == "ibarrier") return flow(c, [&]() { return cc.ibarrier(); });
   if (op == "default") {
     if (pay == 'i') return flow(c, [&]() { return Dune::PseudoFuture<int>(); });
     return flow(c, [&]() { return Dune::PseudoFuture<void>(); });
   }
+  // point-to-point is documented as unsupported in sequential programs: ParallelError
+  if (op == "isend") return flow(c, [&]() { return cc.isend(int(xi), 0, 1); });
+  if (op == "irecv") return flow(c, [&]() { return cc.irecv(int(-1), 0, 1); });
   if (op == "ibcast") {
     switch (pay) {
       case 'i': return flow(c, [&]() { return cc.ibroadcast(int(xi), 0); });
       case 'j': return flow(c, [&]() { return cc.ibroadcast(xi, 0); });
       case 'v': return flow(c, [&]() { return cc.ibroadcast(std::vector<double>(xv), 0); });
       case 'w': return flow(c, [&]() { return cc.ibroadcast(xv, 0); });
+      case 'q': return flow(c, [&]() { return cc.ibroadcast(mkvec<Dune::DynamicVector<double>>(me, salt, 3), 0); });
     }
   }
   if (op == "igather" && pay == 'i') return flow(c, [&]() { return cc.igather(int(xi), std::vector<int>(1, -1), 0); });
@@ -273,8 +343,16 @@ static std::string future_seq(const FCase& c)
   if (op == "iallreduce") {
     switch (pay) {
       case 'i': return flow(c, [&]() { return cc.template iallreduce<std::plus<int>>(int(xi), int(0)); });
-      case 'j': return flow(c, [&]() { return cc.template iallreduce<std::plus<int>>(xi); });
+      case 'j': return flow(c, [&]() { return cc.template iallreduce<std::plus<int>>(xi, zi); });
       case 'v': return flow(c, [&]() { return cc.template iallreduce<std::plus<double>>(std::vector<double>(xv), std::vector<double>(3, 0.0)); });
+      case 'w': return flow(c, [&]() { return cc.template iallreduce<std::plus<double>>(xv, zv); });
+    }
+  }
+  if (op == "iallreduce1") {
+    switch (pay) {
+      case 'i': return flow(c, [&]() { return cc.template iallreduce<std::plus<int>>(int(xi)); });
+      case 'j': return flow(c, [&]() { return cc.template iallreduce<std::plus<int>>(xi); });
+      case 'v': return flow(c, [&]() { return cc.template iallreduce<std::plus<double>>(std::vector<double>(xv)); });
       case 'w': return flow(c, [&]() { return cc.template iallreduce<std::plus<double>>(xv); });
     }
   }
@@ -332,6 +410,14 @@ int main(int argc, char** argv)
       else if (kind == "W") res = run_guard([&]() { return Dune::MPIGuard(g_wdup, act); }, script, true);
       else if (kind == "S") res = run_guard([&]() { return Dune::MPIGuard(sc, act); }, script, true);
       else if (kind == "T") res = run_guard([&]() { return Dune::MPIGuard(Dune::Communication<MPI_Comm>(sc), act); }, script, true);
+      // default argument `active = true` of every constructor (lower case kinds, act must be 1)
+      else if (kind == "h") res = run_guard([&]() { return Dune::MPIGuard(); }, script, true);
+      else if (kind == "m") res = run_guard([&]() { return Dune::MPIGuard(helper); }, script, true);
+      else if (kind == "c") res = run_guard([&]() { return Dune::MPIGuard(Dune::Communication<MPI_Comm>(g_wdup)); }, script, true);
+      else if (kind == "w") res = run_guard([&]() { return Dune::MPIGuard(g_wdup); }, script, true);
+      else if (kind == "n") res = run_guard([&]() { return Dune::MPIGuard(Dune::Communication<Dune::No_Comm>()); }, script, false);
+      // Communication<MPI_Comm>(Communication<No_Comm>) = MPI_COMM_SELF
+      else if (kind == "X") res = run_guard([&]() { return Dune::MPIGuard(Dune::Communication<MPI_Comm>(Dune::Communication<Dune::No_Comm>()), act); }, script, true);
       else if (kind == "N") res = run_guard([&]() { return Dune::MPIGuard(Dune::Communication<Dune::No_Comm>(), act); }, script, false);
     }
     else if (t.size() >= 10 && t[0] == "F") {
